@@ -29,8 +29,77 @@ MAX_ROUNDS = 6         # nesting depth of helpers calling helpers
 
 
 def known_functions():
+    """{function key: [return type, argument types...]} of the tree the rules were written against."""
     with open(KNOWN) as f:
-        return set(json.load(f))
+        return json.load(f)
+
+
+def _parent_path(key):
+    return key.rsplit("::", 1)[0] if "::" in key else ""
+
+
+def rename_anchors(facts, known):
+    """A function of the reference tree that is gone, while exactly one new function with the same signature has
+    appeared in the same impl / module (and nothing else competes for it), was renamed: give it its old name back, so
+    that the rules anchored in it keep deciding the same code.  Returns [(new name, old name)]."""
+    if not isinstance(known, dict):
+        return []
+    present = {j["key"]: j for j in facts["bodies"] if j["kind"] == "fn"}
+    missing = [k for k in known if k not in present and not k.startswith("<") and "::<impl " not in k]
+    new = [k for k in present if k not in known and not k.startswith("<") and "::<impl " not in k]
+    if not missing or not new:
+        return []
+
+    def sig(j):
+        return [j["locals"][i]["ty"] for i in range(0, j["arg_count"] + 1)]
+
+    cands = {}
+    for m in missing:
+        # renamed in place (same impl / module, same signature), or moved elsewhere under the same name
+        cands[m] = [n for n in new if _parent_path(n) == _parent_path(m) and sig(present[n]) == known[m]] or \
+                   [n for n in new if n.rsplit("::", 1)[-1] == m.rsplit("::", 1)[-1] and sig(present[n]) == known[m]]
+    pairs = []
+    for m, cs in cands.items():
+        if len(cs) != 1:
+            continue
+        n = cs[0]
+        if sum(1 for m2, cs2 in cands.items() if n in cs2) != 1:
+            continue
+        pairs.append((n, m))
+    if not pairs:
+        return []
+    ren = dict(pairs)
+
+    def fix_op(o):
+        c = o.get("const") if isinstance(o, dict) else None
+        if c and c.get("fn") in ren:
+            c["fn"] = ren[c["fn"]]
+
+    for j in facts["bodies"]:
+        if j["key"] in ren and j["kind"] == "fn":
+            j["renamed_from"] = j["key"]
+            j["key"] = ren[j["key"]]
+        if j.get("parent") in ren:
+            j["parent"] = ren[j["parent"]]
+        for blk in j["blocks"]:
+            t = blk["term"]
+            for fld in ("callee", "decl"):
+                if t.get(fld) in ren:
+                    t[fld] = ren[t[fld]]
+            for a in t.get("args", []):
+                fix_op(a)
+            for st in blk["stmts"]:
+                if "lhs" not in st:
+                    continue
+                rv = st["rv"]
+                for k in ("a", "b"):
+                    if k in rv and isinstance(rv[k], dict):
+                        fix_op(rv[k])
+                for o in rv.get("ops", []):
+                    fix_op(o)
+                if rv.get("k") == "agg" and rv.get("closure", "").startswith(tuple(n + "::" for n in ren)):
+                    pass  # closure keys keep their spelling; they are found through `parent`
+    return pairs
 
 
 # ------------------------------------------------------------------------------------------ renaming
@@ -579,6 +648,7 @@ def apply(facts, known=None):
     """Expand helper calls in place.  Returns the log: list of {helper, into, sites}."""
     if known is None:
         known = known_functions()
+    facts["renamed"] = [{"now": n, "anchor": m} for n, m in rename_anchors(facts, known)]
     helpers = helpers_of(facts, known)
     facts["inlined"] = []
     if not helpers:
